@@ -18,4 +18,16 @@ CHECKS = {
  "C02": dict(
   text="Proof (full, model level): C02_resident_optimal / C02_resident_pessimal — against every stable matching of the instance the resident-oriented result gives each resident a weakly better hospital (matched whenever matched anywhere) and the hospital-oriented result a weakly worse one (invariant: no achievable pair is ever rejected). Tied to the code by the same exact correspondence as C01; oracle enumerates all stable matchings by brute force (n<=5, m<=3) and checks the renumbering relation on larger instances.",
   note="Trusted: as C01. Equivariance under renumbering is checked on the implementation (metamorphic oracle), not stated as a separate theorem: the model is a function of the instance."),
+ "C10": dict(
+  text="Proof (full, exact-arithmetic model): the model's j-th score is the sum over voters of the textbook weight of that voter's rank (all five rules), the utilitarian score is the column share, winners are exactly the maximisers in ascending order, and the ranking checker applied to every swf output is sound (permutation, carries scores, non-increasing). Tied to deterministic_scoring.py by exact score comparison for the four integer rules and 1e-9 for Harmonic/utilitarian, the scf glue evaluated on the implementation's own score vector, and ranking_ok on swf outputs.",
+  note="Trusted: Coq kernel + vm_compute; model Voting.v/VoteExt.v; harness. Floating-point rounding of Harmonic/utilitarian sums is modelled (exact rationals), not verified; winners are checked against the maximisers of the implementation's own score vector."),
+ "C11": dict(
+  text="Proof (full for the exact models): score_anonymous, score_neutral, equal_rank_multisets_tie for all five positional rules, for every profile and permutation. The implementation is tied by (a) correspondence of its scores on voter-permuted/orbit-symmetrised profiles and (b) a metamorphic oracle run on the implementation itself (voter permutation, renaming, equal rank multisets; Copeland, STV and the utilitarian rule included).",
+  note="Trusted: as C10. The order in which numpy adds floats is outside the model; the metamorphic oracle observes it on the explored inputs only (this is where the pinned tree failed for Harmonic, fixed in 7f15fc2). Copeland/STV/utilitarian symmetry is checked by the oracle, their theorems are C12/C10's."),
+ "C12": dict(
+  text="Proof (model level): Copeland's coded sign-of-sum-of-signs score equals #beaten - #beating under strict pairwise majority; a Condorcet winner scores m-1 and everything else strictly less; the coded STV loop (column deletion + in-place rank decrement) returns the strict-majority favourite for every tie-break sequence. Tied to the code by exact correspondence (Copeland scores/winners/ranking; STV winner with every recorded tie-break draw replayed in the model) and a reference-STV oracle that validates each elimination.",
+  note="Trusted: as C10; numpy's sampler is an oracle (its draws are recorded in-process and replayed). Not yet proved: the STV loop with in-place renumbering equals STV on restricted ballots for all profiles (checked per case by the oracle)."),
+ "C13": dict(
+  text="Proof (model level): break_tie contract (accept = list, first = head, random = member for every sampler answer, excluded/unknown = error), winners under one-indexing = zero-indexed winners + 1, probabilities handed to the sampler = score/sum, sum to 1, positive exactly on positive scores. Tied to the code over rule x tie-breaker x convention: both conventions run under one seed and compared, np.random.choice intercepted (population, p, result).",
+  note="Trusted: as C10; sampler = oracle. Index shift for the non-voting rule families is checked metamorphically in this check (Gale-Shapley) and in the checks of the respective properties."),
 }
